@@ -17,7 +17,7 @@ const char *C01_CLASSES[] = {"launch-count", "not-all-terminated", "done-count",
                              "leftover", "terminated-twice", "unknown-packet",
                              "packet-duplicated", "packet-after-termination",
                              "termination-cause", "task-nesting", "launch",
-                             "buffer-overflow", "nontermination", nullptr};
+                             "buffer-overflow", "nontermination", "packet-never-ends", nullptr};
 const char *C03_CLASSES[] = {"handover", "neighbour-table", "copy-structure",
                              "estimator-mismatch", "outcome-mismatch",
                              "position-mismatch", nullptr};
@@ -390,7 +390,7 @@ public:
       seconds = 1700;
     }
   }
-  int watchdog_seconds() const { return 120; }
+  int watchdog_seconds() const { return 240; }
 
   void setup() {
     std::string d = scratch_dir();
@@ -491,7 +491,8 @@ public:
     c.seed = (int)r.range(0, 100000);
     c.task_plot = false;
     c.writer = 0;
-    c.sched = Sched::draw(r, 60000000ull);
+    c.sched = Sched::draw(r, 4000000ull);
+    c.sched.total_cap = thorough ? 200000000ull : 60000000ull;
     return c.to_json();
   }
 
@@ -518,7 +519,11 @@ public:
     RunStats rs = run_end();
 
     std::string vclass, message;
-    if (!finished) {
+    if (!finished && rs.inconclusive) {
+      out.notes.push_back("run abandoned as inconclusive: still progressing "
+                          "after the total point cap (a packet travelling "
+                          "almost parallel to periodic walls)");
+    } else if (!finished) {
       vclass = "nontermination";
       message = sfmt("iteration %d did not end within the step budget (fair "
                      "phase included); %ld of %ld packets terminated",
@@ -542,6 +547,7 @@ public:
                             "' seen (decided by another property's check)");
       }
     }
+    out.restart_worker = !finished;
     out.hash = fnv1a(rs.hash, L.ledger_hash);
     out.executed = rs.executed;
     out.nontrivial = rs.switches > 0 && c.threads > 1;
